@@ -394,16 +394,19 @@ Module Alg.
 
   Definition CAP : nat := 3%nat.
   Definition POISON : N := 7.
+  Definition DRAIN : N := 9.
 
   Definition optimize (w : W) (ms : MS) (cls : N) (h : list N) (a : TA) (v : list obsv) (prev : nat)
              (is_merge : bool) : W * bool * MS * TA * list obsv :=
     let '(au, am, ao) := a in
     let (calls, acc) := ms in
     let idx := no w in
-    let v' := firstn CAP (osort v) in
+    let kept := firstn CAP (osort v) in
+    (* "drain": a kept observation with attribute DRAIN empties the whole class vector (the key stays) *)
+    let v' := if existsb (fun ob => match fst ob with Some x => x =? DRAIN | None => false end) kept then [] else kept in
     (mkW (na w) (nm w) (idx + 1) (fa w) (fm w) (fo w),
      negb (mem idx (fo w) || existsb (fun ob => match fst ob with Some x => x =? POISON | None => false end) v'),
-     (calls + 1, acc + cls + N.of_nat prev + (if is_merge then 1 else 0) + 3 * nlen h + last h 0),
+     (calls + 1, acc + cls + N.of_nat prev + (if is_merge then 1 else 0) + 3 * nlen h + (last h 0) mod 97),
      (au, am + nlen h, ao + nlen v),
      v').
 
